@@ -33,6 +33,7 @@ U == -1    \* unspecified value
 
 ABasesZero  == {0}
 ABasesMixed == {-1, 0, 2}
+ABasesTwo   == {0, 2}
 
 VARIABLES arr,    \* values
           alloc,  \* allocator instance of each live array (C10); 0 = default-constructed allocator
